@@ -293,7 +293,7 @@ def run(cx):
     if us:
         vf = cx.calls(us, r'TSigVerifier::verify$')
         cx.check('C13.G6', len(vf) == 1, us.path, 'calls', 'single-verify-site', str(len(vf)))
-        fail = [s_ for bb in range(len(us.blocks)) for s_, ps in us.edge_props(bb).items() if any(re.search(r'^!ok\(TSigVerifier::verify\(', shorten(p_)) for p_ in ps)]
+        fail = [s_ for bb in range(len(us.blocks)) for s_, ps in us.edge_props(bb).items() if any(re.search(r'^!ok\((?:Result::map_err\()?TSigVerifier::verify\(', shorten(p_)) for p_ in ps)]
         cx.check('C13.G6', len(fail) >= 1, us.path, 'edges', 'verification-failure-edge-present', str(len(fail)))
         after = cx.reachable_from(us, fail) if fail else set()
         rcv = cx.calls(us, r'DnsUdpSocket::recv_from$')
